@@ -9,6 +9,7 @@ COMMON_NOTE = ("Trusted base: the home-built VC generator pyvc (symbolic executi
                "library models listed in evidence.coverage.trusted_base; exception-message formatting and logging calls treated "
                "as total no-ops. ")
 NA = {}
+BOUNDED_NOTE = 'Bounded stand-in, not proof: real methods executed symbolically over every store of <= 3 nodes spread over two graph ids with symbolic NodeID/Class/Type/property values and edge classes (all equalities and collisions); networkx / networkx_query are an assumed model (pyvc/nxmodel.py) whose agreement with the real library is checked on every explored path by re-running the real code on a model of the path condition; the thin NetworkXGraphStorage singleton wrapper (__getattr__ forwarding) is bypassed. '
 CLAIMS = {
     'C15': dict(
         text="Every algebraic law of the statement is a named obligation over the real Capacities/FreeCapacity source, discharged "
@@ -59,6 +60,35 @@ CLAIMS = {
         technique="contract-based deductive verification with ghost lock state: exceptional postconditions on every path of the real "
                   "AST under havocked, faulting library calls; native fault-injection replay",
         design_ref="DESIGN.md section 3 C20"),
+    'C06': dict(category='other',
+        text="Bounded symbolic verification of the real query methods (get_first_neighbor, get_first_and_second_neighbor, "
+             "get_nodes_on_shortest_path, get_nodes_on_path_with_hops and the mixin helpers) on both store flavours against the exact "
+             "sets of the statement computed from the node/edge lists: every store with <= 3 nodes, all start/end nodes, relations, "
+             "classes, hop lists. One genuine defect repaired (shortest path with a relation), one recorded as known finding KF-C06-1 "
+             "(second relation ignored; the repository's own test asserts the defective result).",
+        note=BOUNDED_NOTE + "Path algorithms are networkx's own, run on the concrete shape.",
+        technique="contracts on the real methods checked by bounded symbolic execution (pyvc over the bounded graph model), z3; "
+                  "counter-models replayed on the real code",
+        design_ref="DESIGN.md section 3 C06"),
+    'C05': dict(category='other',
+        text="Every public operation of both in-memory back ends (node/link property get/update/unset singly and in bulk, whole-graph "
+             "update, listings by class/type, existence and uniqueness checks, add/delete node, add link, matching, merging, delete "
+             "graph) is executed on its real source and checked against ONE contract per operation: result, exact new content, and "
+             "exactly which calls raise; identity properties cannot be unset, Class cannot be changed, node id unique whatever the class, "
+             "merge keeps all edges and applies the policy. Both back ends meeting the same contract is the agreement asked for.",
+        note=BOUNDED_NOTE + "Operation SEQUENCES are covered by induction over per-call contracts from arbitrary (bounded) states, not "
+             "by enumerating histories.",
+        technique="per-operation L1 contracts checked by bounded symbolic execution of the real back-end methods (pyvc), z3; "
+                  "counter-models replayed on the real code",
+        design_ref="DESIGN.md section 3 C05"),
+    'C04': dict(category='other',
+        text="Frame conditions of the statement for every mutator of both back ends and for store-level import / re-import under the "
+             "same id (incoming node keys colliding with stored ids) / add blank node / clone: nodes of other graphs keep their "
+             "attribute maps and connections, no new node claims another graph's id, internal ids stay distinct and fresh, clone has "
+             "the same content under the new id and shares no attribute map with its source.",
+        note=BOUNDED_NOTE + "History quantifier: induction over per-call frames (stated, not mechanised).",
+        technique="frame/ownership contracts on the real mutators checked by bounded symbolic execution (pyvc), z3; replay on real code",
+        design_ref="DESIGN.md section 3 C04"),
     'C16': dict(
         text="For every label field the real Labels._set_fields is proved, for all strings, to accept exactly the documented domain "
              "(published pattern matched against the whole string with CPython regex semantics incl. Unicode classes, plus the "
